@@ -333,6 +333,65 @@ fn stalled_answer_histories(cli: &Cli) -> Vec<(String, bool, Vec<(Finding, serde
     })
 }
 
+/// What one connection accepted must not vouch for anything on the next: a genuine cookie is
+/// presented and accepted, then - same process, same listener state - the same tag arrives in front
+/// of an altered body (one bit, or another player's name). Every connection verifies for itself.
+fn replayed_tag_histories(cli: &Cli) -> Vec<(String, Vec<(Finding, serde_json::Value)>, serde_json::Value)> {
+    let n = cli.scaled(cli.tier.pick(6, 60));
+    let items: Vec<u64> = (0..n).collect();
+    par_map(items, cli.threads(), |_, i| {
+        let mut rng = Rng::stream(cli.seed, 27_000 + i);
+        let ctx = Ctx { intent: Intent::Transfer, server_secret: Some(rng.bytes_between(8, 32)), expiry: None, client_addr: mk::random_addr(&mut rng).parse().expect("addr") };
+        let first = make_case(&mut rng, &ctx, Class::Valid, false, true);
+        let r1 = run(&first.sc);
+        let flag1 = r1.client.enc_request.as_ref().map(|e| e.2);
+        let genuine = first.sc.client.cookies.iter().find(|c| c.0 == AUTH_KEY).and_then(|c| c.1.clone()).unwrap_or_default();
+        let mut findings = vec![];
+        let class = "replayed-tag/genuine-then-altered-body".to_string();
+        if flag1 != Some(false) || genuine.len() < 40 {
+            findings.push((Finding { signature: "flag-mismatch/transfer/secret/valid/should-skip".into(), what: "a valid cookie was not accepted (first connection of a replay history)".into(), detail: json!({}) }, witness(&first.sc, &r1, json!({}))));
+            return (class, findings, json!({}));
+        }
+        let mut observed = vec![];
+        for variant in 0..3 {
+            let mut altered = genuine.clone();
+            match variant {
+                // one bit somewhere in the body
+                0 => {
+                    let pos = 32 + rng.usize_below(altered.len() - 32);
+                    altered[pos] ^= 1 << rng.below(8);
+                }
+                // another player's name of the same length (still well-formed JSON)
+                1 => {
+                    let name = first.cookie_ident.name.as_bytes();
+                    if let Some(at) = altered.windows(name.len()).position(|w| w == name) {
+                        let last = at + name.len() - 1;
+                        altered[last] = if altered[last] == b'x' { b'y' } else { b'x' };
+                    }
+                }
+                // the body cut short by one byte
+                _ => {
+                    altered.pop();
+                }
+            }
+            let mut second = make_case(&mut rng, &ctx, Class::Absent, false, true);
+            second.sc.client.cookies = vec![(AUTH_KEY.to_string(), Some(altered))];
+            let r2 = run(&second.sc);
+            let flag2 = r2.client.enc_request.as_ref().map(|e| e.2);
+            observed.push(flag2);
+            match flag2 {
+                Some(false) => findings.push((
+                    Finding { signature: "flag-mismatch/transfer/secret/replayed-tag-altered-body/should-authenticate".into(), what: "after a genuine cookie had been accepted on an earlier connection, the same tag in front of an altered body was accepted without authentication".into(), detail: json!({"variant": variant}) },
+                    witness(&second.sc, &r2, json!({"variant": variant})),
+                )),
+                None => findings.push((Finding { signature: format!("no-encryption-request/transfer/secret/replayed-tag-altered-body/{}", r2.result.kind()), what: "connection ended before the Encryption Request".into(), detail: json!({}) }, witness(&second.sc, &r2, json!({})))),
+                Some(true) => {}
+            }
+        }
+        (class, findings, json!({"case": "replayed tag", "first_connection_should_authenticate": flag1, "altered_bodies_should_authenticate": observed}))
+    })
+}
+
 pub fn run_prop(cli: &Cli) -> i32 {
     let mut report = Report::new(
         cli,
@@ -343,6 +402,16 @@ pub fn run_prop(cli: &Cli) -> i32 {
     report.assume("cookie timestamps beyond the present are generated up to one hour ahead only");
     let (cases, all_flips) = generate(cli);
     // the real-time histories run beside the bulk of the cases
+    for (class, findings, sample) in replayed_tag_histories(cli) {
+        report.eval(Some(&class));
+        report.count("altered bodies presented behind a tag that an earlier connection had accepted", 3);
+        if report.wants_sample() {
+            report.sample(sample);
+        }
+        for (fi, w) in findings {
+            report.violation(&fi.signature, &fi.what, w);
+        }
+    }
     let (histories, stalled, results) = std::thread::scope(|sc| {
         let h = sc.spawn(|| issued_cookie_histories(cli));
         let h2 = sc.spawn(|| stalled_answer_histories(cli));
